@@ -38,8 +38,9 @@ pub fn par_case_strategy(g: ParGen) -> impl Strategy<Value = ParCase> {
     let threads = g.threads.0..=g.threads.1;
     let builder = if g.builder { prop_oneof![1 => Just(None), 2 => (1usize..=8).prop_map(Some)].boxed() } else { Just(None).boxed() };
     let fire = if g.cutoff { prop_oneof![1 => Just(None), 6 => (1usize..=g.max_fire).prop_map(Some)].boxed() } else { Just(None).boxed() };
+    let fire_on = if g.cutoff { prop_oneof![2 => Just(None), 3 => (0u8..4, 1usize..12).prop_map(Some)].boxed() } else { Just(None).boxed() };
     let primal = if g.primal { prop_oneof![1 => Just(None), 5 => (0isize..=3, 0usize..64).prop_map(Some)].boxed() } else { Just(None).boxed() };
-    (table_strategy(p), config_strategy(cg), threads, builder, fire, any::<bool>(), sched_strategy(), primal).prop_map(|(t, cfg, threads, with_nb_threads, fire_at, fine, sched, primal)| ParCase { t, cfg, threads, with_nb_threads, fire_at, fine, sched, primal })
+    (table_strategy(p), config_strategy(cg), threads, builder, (fire, fire_on), any::<bool>(), sched_strategy(), primal).prop_map(|(t, cfg, threads, with_nb_threads, (fire_at, fire_on), fine, sched, primal)| ParCase { t, cfg, threads, with_nb_threads, fire_at: if fire_on.is_some() { None } else { fire_at }, fine, sched, primal, fire_on })
 }
 
 pub fn primals_of(case: &ParCase, o: &Oracle) -> Option<Vec<(isize, Vec<ddo::Decision>)>> {
@@ -85,6 +86,9 @@ pub fn eval_par(case: &ParCase, obs: &mut CaseObs, prop: &str, known: &KnownFind
     }
     if case.fine {
         obs.label("fine-yields");
+    }
+    if let Some((k, _)) = case.fire_on {
+        obs.label(format!("cutoff-on-event:{}", ["after-node-finished", "after-enqueue-cutset", "after-work-item", "after-update-best"][k as usize % 4]));
     }
     obs.label(match case.sched {
         SchedSpec::Bytes(_) => "sched:bytes",
